@@ -228,8 +228,16 @@ func genStream(ch *Choices, big bool) []byte {
 	nl := 1 + ch.Choose(6, "stream-lines")
 	for i := 0; i < nl; i++ {
 		// one line: segments of text / ansi / unicode
-		kind := ch.Weighted([]int{6, 2, 1}, "line-kind")
+		kind := ch.Weighted([]int{6, 2, 1, 1}, "line-kind")
 		switch kind {
+		case 3:
+			// a coloured status line that rings the bell: the colour sequence goes, the text (it
+			// contains spaces, so it cannot be part of a bell-terminated sequence) and the bell stay
+			sb.WriteString("\x1b[1;3" + string(rune('1'+ch.Choose(6, "colour"))) + "m")
+			sb.WriteString("FAILED " + genWord(ch, 8) + " check: " + genWord(ch, 3) + " of 5 probes\x07")
+			if ch.Bool(1, 2, "reset") {
+				sb.WriteString("\x1b[0m")
+			}
 		case 0:
 			segs := ch.Choose(5, "segs")
 			for s := 0; s < segs; s++ {
